@@ -306,6 +306,224 @@ def ChainState.request (ios : List (DiscIO V)) (st : ChainState V) (xs os : List
 
 end Traverse
 
+/-! ### At which data the disciplines of a chain are linearized
+
+`MDOChain._compute_jacobian` composes the Jacobians `discipline.jac`, and a discipline computes its
+Jacobian at the data it currently holds (`discipline.io.data`).  What these data are depends on the
+history of the process: which points were executed, which executions were served by a cache (of the
+chain: then the disciplines are not executed; of a discipline), which variables a discipline
+overwrites.  This section models that state:
+
+  src/gemseo/core/discipline/base_discipline.py  BaseDiscipline.execute (cache look-up, `_execute`,
+                                                 cache storage), caches (none / one entry / all entries)
+  src/gemseo/core/discipline/discipline.py       Discipline.linearize: optional execution, then
+                                                 `self.io.data.update(input_data)`
+  src/gemseo/core/chains/chain.py                MDOChain._execute, the forward sweep of
+                                                 MDOChain._compute_jacobian and the
+                                                 `discipline.linearize(input_data, execute=False)` of
+                                                 reverse_chain_rule
+  src/gemseo/mda/mda_chain.py                    MDAChain._execute / _compute_jacobian
+                                                 (chain_linearize=True): a cached wrapper of its MDOChain
+
+Data are total environments `V → D` over an arbitrary type of values `D`; only the values of the
+names of the grammars are ever looked at.  A discipline is what the chain sees of it when it
+executes it: grammars, cache policy and the function `f` its `_execute` computes (for a sub-process:
+the function its own `_execute` computes). -/
+
+section Eval
+variable {V D : Type} [DecidableEq V] [DecidableEq D]
+
+abbrev Env (V D : Type) := V → D
+
+/-- `a.update({v: b[v] for v in names})`. -/
+def Env.over (a b : Env V D) (names : List V) : Env V D := fun v => if v ∈ names then b v else a v
+
+/-- Equality of the values of the names `names` (the comparison of a cache look-up). -/
+def agreeOn (names : List V) (a b : Env V D) : Bool := names.all (fun v => decide (a v = b v))
+
+/-- `CacheType.NONE`, `SimpleCache` (last evaluation), `MemoryFullCache`/`HDF5Cache` (all). -/
+inductive CacheKind where
+  | none | simple | full
+  deriving DecidableEq, Repr, Inhabited
+
+structure EDisc (V D : Type) where
+  ins : List V
+  outs : List V
+  f : Env V D → Env V D
+  cache : CacheKind
+
+/-- State of a discipline: `io.data` and the entries (input data, output data) of its cache. -/
+structure EState (V D : Type) where
+  data : Env V D
+  entries : List (Env V D × Env V D)
+
+/-- `cache[input_data].outputs`: the output data of the first entry with these input values. -/
+def cacheFind (ins : List V) (entries : List (Env V D × Env V D)) (inp : Env V D) :
+    Option (Env V D) :=
+  (entries.find? (fun e => agreeOn ins e.1 inp)).map (·.2)
+
+/-- `cache.cache_outputs(input_data, output_data)` (only called after a miss). -/
+def cacheStore (k : CacheKind) (entries : List (Env V D × Env V D)) (inp out : Env V D) :
+    List (Env V D × Env V D) :=
+  match k with
+  | .none => []
+  | .simple => [(inp, out)]
+  | .full => (inp, out) :: entries
+
+/-- `BaseDiscipline.execute(input_data)`: on a cache hit the data are restored from the cache and
+    `_execute` is not called; otherwise `io.data` is initialized with the input data, `_execute`
+    adds the output data and the evaluation is stored. -/
+def EDisc.exec (d : EDisc V D) (st : EState V D) (inp : Env V D) : EState V D :=
+  match cacheFind d.ins st.entries inp with
+  | some out => { st with data := Env.over inp out d.outs }
+  | none =>
+    let out := d.f inp
+    { data := Env.over inp out d.outs, entries := cacheStore d.cache st.entries inp out }
+
+/-- `Discipline.linearize(input_data, execute=…)` up to the call of `_compute_jacobian`: optional
+    execution, then `self.io.data.update(input_data)` (an input that is also an output gets its
+    input value back).  The Jacobian is computed at the resulting `data`. -/
+def EDisc.prepLin (d : EDisc V D) (st : EState V D) (inp : Env V D) (execute : Bool) : EState V D :=
+  let st := if execute then d.exec st inp else st
+  { st with data := Env.over st.data inp d.ins }
+
+/-- Input names of an `MDOChain` (`_initialize_grammars`): the names a discipline reads and that no
+    earlier discipline computes. -/
+def chainIns : List (EDisc V D) → List V
+  | [] => []
+  | d :: ds => d.ins ++ (chainIns ds).filter (fun v => !decide (v ∈ d.outs))
+
+/-- Output names of an `MDOChain`: everything a discipline computes. -/
+def chainOuts (ds : List (EDisc V D)) : List V := ds.flatMap (·.outs)
+
+/-- State of a chain: its own data and cache, the states of its disciplines. -/
+structure ChState (V D : Type) where
+  own : EState V D
+  kids : List (EState V D)
+
+/-- `MDOChain._execute`: `for discipline in self.disciplines:
+    self.io.data.update(discipline.execute(self.io.data))`. -/
+def runKids : List (EDisc V D) → List (EState V D) → Env V D → List (EState V D) × Env V D
+  | d :: ds, s :: ss, data =>
+    let s' := d.exec s data
+    let r := runKids ds ss (Env.over data s'.data (d.ins ++ d.outs))
+    (s' :: r.1, r.2)
+  | _, _, data => ([], data)
+
+structure EChain (V D : Type) where
+  kids : List (EDisc V D)
+  cache : CacheKind
+
+/-- `MDOChain.execute(x)` (`BaseDiscipline.execute` of the chain): on a hit in the cache of the
+    chain the disciplines are NOT executed and keep the data of their last execution. -/
+def EChain.exec (c : EChain V D) (st : ChState V D) (x : Env V D) : ChState V D :=
+  match cacheFind (chainIns c.kids) st.own.entries x with
+  | some out => { st with own := { st.own with data := Env.over x out (chainOuts c.kids) } }
+  | none =>
+    let r := runKids c.kids st.kids x
+    { own := { data := r.2, entries := cacheStore c.cache st.own.entries x r.2 }, kids := r.1 }
+
+/-- REPAIRED `MDOChain._compute_jacobian`, the part that decides where the disciplines are
+    linearized: forward sweep `discipline_input_data = prepare_input_data(data);
+    data.update(discipline.execute(discipline_input_data))`, then (reverse pass)
+    `discipline.linearize(discipline_input_data, execute=False)`.  Returns the new states and, for
+    every discipline, the data at which its Jacobian is computed. -/
+def sweep : List (EDisc V D) → List (EState V D) → Env V D → List (EState V D) × List (Env V D)
+  | d :: ds, s :: ss, data =>
+    let s1 := d.exec s data
+    let r := sweep ds ss (Env.over data s1.data (d.ins ++ d.outs))
+    let s2 := d.prepLin s1 data false
+    (s2 :: r.1, s2.data :: r.2)
+  | _, _, _ => ([], [])
+
+/-- PINNED `reverse_chain_rule`: `discipline.linearize(discipline.io.get_input_data(),
+    execute=False)`: every discipline is linearized at the data it currently holds. -/
+def sweepOld : List (EDisc V D) → List (EState V D) → List (EState V D) × List (Env V D)
+  | d :: ds, s :: ss =>
+    let r := sweepOld ds ss
+    let s2 := d.prepLin s s.data false
+    (s2 :: r.1, s2.data :: r.2)
+  | _, _ => ([], [])
+
+/-- `MDOChain.linearize(x, execute=…)` up to the accumulation: optional execution (possibly served
+    by the cache of the chain), `self.io.data.update(x)`, then the sweep from the input data of the
+    chain. -/
+def EChain.lin (c : EChain V D) (st : ChState V D) (x : Env V D) (execute : Bool) :
+    ChState V D × List (Env V D) :=
+  let st := if execute then c.exec st x else st
+  let own : EState V D := { st.own with data := Env.over st.own.data x (chainIns c.kids) }
+  let r := sweep c.kids st.kids own.data
+  ({ own := own, kids := r.1 }, r.2)
+
+def EChain.linOld (c : EChain V D) (st : ChState V D) (x : Env V D) (execute : Bool) :
+    ChState V D × List (Env V D) :=
+  let st := if execute then c.exec st x else st
+  let own : EState V D := { st.own with data := Env.over st.own.data x (chainIns c.kids) }
+  let r := sweepOld c.kids st.kids
+  ({ own := own, kids := r.1 }, r.2)
+
+/-- The data the disciplines receive when the chain is executed from `data`: the SPECIFICATION of
+    the linearization points (no state, no cache). -/
+def specPoints : List (EDisc V D) → Env V D → List (Env V D)
+  | [], _ => []
+  | d :: ds, data => data :: specPoints ds (Env.over data (d.f data) d.outs)
+
+/-- The function a chain computes (its data after the sequential execution from `data`). -/
+def chainFun : List (EDisc V D) → Env V D → Env V D
+  | [], data => data
+  | d :: ds, data => chainFun ds (Env.over data (d.f data) d.outs)
+
+/-- Operations of a history on one chain object. -/
+inductive EOp (V D : Type) where
+  | exec (x : Env V D)
+  | lin (x : Env V D) (execute : Bool)
+
+def EChain.step (c : EChain V D) (st : ChState V D) : EOp V D → ChState V D
+  | .exec x => c.exec st x
+  | .lin x e => (c.lin st x e).1
+
+def EChain.run (c : EChain V D) (st : ChState V D) (ops : List (EOp V D)) : ChState V D :=
+  ops.foldl c.step st
+
+/-- A fresh chain: empty caches, arbitrary data. -/
+def ChState.fresh (n : Nat) (d0 : Env V D) : ChState V D :=
+  ⟨⟨d0, []⟩, List.replicate n ⟨d0, []⟩⟩
+
+/-! `MDAChain(chain_linearize=True)`: a discipline with its own cache whose `_execute` executes its
+    `mdo_chain` and whose `_compute_jacobian` is `self.mdo_chain.linearize(inputs, execute=…)`
+    (`execute=True` in the code; the theorem holds for both values). -/
+
+structure MState (V D : Type) where
+  own : EState V D
+  inner : ChState V D
+
+def mdaExec (c : EChain V D) (wcache : CacheKind) (st : MState V D) (x : Env V D) : MState V D :=
+  match cacheFind (chainIns c.kids) st.own.entries x with
+  | some out => { st with own := { st.own with data := Env.over x out (chainOuts c.kids) } }
+  | none =>
+    let inner := c.exec st.inner x
+    { own := { data := inner.own.data, entries := cacheStore wcache st.own.entries x inner.own.data },
+      inner := inner }
+
+def mdaLin (c : EChain V D) (wcache : CacheKind) (st : MState V D) (x : Env V D)
+    (execute innerExecute : Bool) : MState V D × List (Env V D) :=
+  let st := if execute then mdaExec c wcache st x else st
+  let own : EState V D := { st.own with data := Env.over st.own.data x (chainIns c.kids) }
+  let r := c.lin st.inner own.data innerExecute
+  ({ own := own, inner := r.1 }, r.2)
+
+def mdaStep (c : EChain V D) (wcache : CacheKind) (st : MState V D) : EOp V D → MState V D
+  | .exec x => mdaExec c wcache st x
+  | .lin x e => (mdaLin c wcache st x e true).1
+
+def mdaRun (c : EChain V D) (wcache : CacheKind) (st : MState V D) (ops : List (EOp V D)) :
+    MState V D :=
+  ops.foldl (mdaStep c wcache) st
+
+def MState.fresh (n : Nat) (d0 : Env V D) : MState V D := ⟨⟨d0, []⟩, ChState.fresh n d0⟩
+
+end Eval
+
 /-! ### Concrete blocks of the driver: matrices as lists of rows over `Rat` -/
 
 abbrev Mat := List (List Rat)
